@@ -66,7 +66,12 @@ func zxC13RemoteQuery() {
 	}
 	st.msgs = append(st.msgs, &rpc.RemoteQueryResult{EndOfResults: true})
 	complete := true
-	switch vrtShape("fault", 4) {
+	switch vrtShape("fault", 5) {
+	case 4:
+		// the follower failed before it could send its field list (unknown table, deadline
+		// below a GROUP BY): its only message is the closing one, carrying the error
+		st.msgs = []*rpc.RemoteQueryResult{{EndOfResults: true, Error: "table not found"}}
+		complete = false
 	case 1:
 		// the follower's query failed: reported on the closing message
 		st.msgs[len(st.msgs)-1].Error = "deadline exceeded"
@@ -86,8 +91,14 @@ func zxC13RemoteQuery() {
 	delivered := 0
 	var herr error
 	ran := false
+	nilFields := false
 	go func() {
-		_, herr = db.handler(context.Background(), "SELECT * FROM t", false, nil, false, func(f core.Fields) error { return nil },
+		_, herr = db.handler(context.Background(), "SELECT * FROM t", false, nil, false, func(f core.Fields) error {
+			if f == nil {
+				nilFields = true
+			}
+			return nil
+		},
 			func(key bytemap.ByteMap, vals core.Vals) (bool, error) { return true, nil },
 			func(row *core.FlatRow) (bool, error) { delivered++; return true, nil })
 		ran = true
@@ -96,6 +107,9 @@ func zxC13RemoteQuery() {
 	vrtAssert(ran, "the registered handler ran to completion")
 	if ran {
 		vrtAssert(vrtImplies(!complete, herr != nil), "an incomplete follower answer makes the partition handler return an error")
+		// queryCluster reads a result without fields, key and row as the partition's final result:
+		// a nil field list would make it count a failed partition as finished and successful
+		vrtAssert(!nilFields, "the leader is never handed a nil field list")
 		if complete {
 			vrtAssert(herr == nil && delivered == k, "a complete follower answer yields every row and no error")
 		}
